@@ -548,6 +548,12 @@ func classify(a *wire.RR) string {
 					put(2, e.N, "type65535")
 				}
 			}
+		case "u32":
+			if b := anyBytes(v); a.Type == 29 && len(b) == 4 && (e.N == "Latitude" || e.N == "Longitude") {
+				if (uint32(b[0])<<24|uint32(b[1])<<16|uint32(b[2])<<8|uint32(b[3]))%1000 != 0 {
+					put(7, e.N, "fractional-seconds")
+				}
+			}
 		case "octet":
 			if len(anyBytes(v)) > 255 {
 				put(3, e.N, "longer-than-255")
